@@ -66,7 +66,19 @@ def call_oracle(c):
     value = c.value
     if any(x[0] == 'commented' for _kw, x in t[3]):
         value = valgen.build(PC.strip_comments_term(t))[0]
-    if not PC.strict_equal(got, c01.expected(value, c.cfg.get('sort_dict_keys', False))):
+    def exp(v, sort=c.cfg.get('sort_dict_keys', False)):
+        # as c01.expected, also below the objects printed as calls
+        if isinstance(v, valgen.UserObj):
+            return valgen.UserObj(v.cname, tuple(exp(a) for a in v.args), [(k, exp(x)) for k, x in v.kwargs])
+        if isinstance(v, dict):
+            items = list(v.items())
+            if sort:
+                items = sorted(items, key=lambda kv: kv[0])
+            return type(v)({exp(k): exp(x) for k, x in items})
+        if isinstance(v, (list, tuple, set, frozenset)):
+            return type(v)(exp(x) for x in v) if not isinstance(v, tuple) else type(v)(tuple(exp(x) for x in v))
+        return v
+    if not PC.strict_equal(got, exp(value)):
         return 'evaluating the text does not perform the same call: %r' % (got,)
     return None
 
@@ -96,6 +108,9 @@ def call_cases(tier):
         if k % 3 == 0:
             # the remaining settings reach the arguments unchanged as well
             cfg['max_seq_len'] = r.choice([1, 2, 3, None])
+        if k % 5 < 2 and PC.comparable(valgen.build(t)[0]):
+            # ... and sorting is about dict VALUES, never about the keyword arguments of a call
+            cfg['sort_dict_keys'] = True
         out.append(('call', t, cfg))
     return out
 
